@@ -315,9 +315,15 @@ class StmtMixin(object):
 
     def x_Try(self, node, env):
         pending = None
+        if not hasattr(self, "try_stack"):
+            self.try_stack = []
         try:
             try:
-                self.exec_block(node.body, env)
+                self.try_stack.append([self.handler_names(h) for h in node.handlers])
+                try:
+                    self.exec_block(node.body, env)
+                finally:
+                    self.try_stack.pop()
             except PyRaise as ex:
                 handled = False
                 for h in node.handlers:
@@ -341,6 +347,14 @@ class StmtMixin(object):
             self.exec_block(node.finalbody, env)
         if pending is not None:
             raise pending
+
+    def handler_names(self, h):
+        """Exception class names a handler catches; None for a bare ``except:``."""
+        if h.type is None:
+            return None
+        t = h.type
+        elts = t.elts if isinstance(t, ast.Tuple) else [t]
+        return [e.id if isinstance(e, ast.Name) else (e.attr if isinstance(e, ast.Attribute) else "BaseException") for e in elts]
 
     def handler_matches(self, h, ex, env):
         if h.type is None:
